@@ -4,3 +4,61 @@ use super::*;
 
 #[cfg(test)]
 include!("/verif/.build/playback/update_branch_updater.inc");
+
+// ---- the binary search V19 assumes: bounded native enumeration -----------------------------------
+/// Bounded native enumeration (not a proof) of `ops::find_key_pos` - the contract Verus unit v19
+/// assumes for it - on real branch nodes of 1..=7 separators with every split into prefix-compressed
+/// head / uncompressed tail: for every start position `low` and every probe key (each separator, a
+/// key just below and just above each, the smallest and the largest key) such that the separators
+/// below `low` are smaller than the probe, the result is (true, index of the key) or (false, index of
+/// the first separator greater than the key), never an index below `low`; and `BaseBranch::find_key`
+/// moves its cursor accordingly.
+#[cfg(test)]
+#[test]
+fn native_enum_find_key_pos_contract() {
+    use crate::beatree::ops::find_key_pos;
+    use crate::beatree::ops::update::branch_ops::verif_kani::{native_base, native_key};
+    let mut cases = 0;
+    for n in 1..=7usize {
+        for pc in 1..=n {
+            let base = native_base(n, pc);
+            let keys: Vec<Key> = (0..n).map(|i| base.key(i)).collect();
+            let mut probes: Vec<Key> = vec![[0u8; 32], [0xFF; 32]];
+            for k in &keys {
+                probes.push(*k);
+                let mut below = *k;
+                below[31] = below[31].wrapping_sub(1);
+                if below[31] == 0xFF { below[30] = below[30].wrapping_sub(1); }
+                probes.push(below);
+                let mut above = *k;
+                above[31] |= 1;
+                probes.push(above);
+            }
+            for probe in &probes {
+                for low in 0..=n {
+                    if keys[..low].iter().any(|k| k >= probe) { continue; }
+                    let (found, pos) = find_key_pos(&base.node, probe, Some(low));
+                    let want_pos = keys.iter().position(|k| k >= probe).unwrap_or(n);
+                    let want_found = want_pos < n && keys[want_pos] == *probe;
+                    // a probe below the node's prefix is answered with position 0 whatever `low` is; that
+                    // cannot happen when the separators below `low` are smaller than the probe and low > 0
+                    assert!(pos >= low || low == 0 || want_pos >= low, "position below the start");
+                    assert!((found, pos) == (want_found, std::cmp::max(want_pos, if found { pos } else { want_pos })) && pos == want_pos,
+                        "find_key_pos(n={}, compressed={}, low={}) = ({}, {}), expected ({}, {}) for probe {:02x?}", n, pc, low, found, pos, want_found, want_pos, &probe[..10]);
+                    // the cursor of the base node
+                    let mut b = native_base(n, pc);
+                    b.low = low;
+                    let r = b.find_key(probe);
+                    if low == n || (!want_found && want_pos == low) {
+                        assert!(r.is_none() && b.low == low, "BaseBranch::find_key moved the cursor although there is nothing to keep");
+                    } else {
+                        assert!(r == Some((want_found, want_pos)), "BaseBranch::find_key(n={}, compressed={}, low={}) = {:?}", n, pc, low, r);
+                        assert!(b.low == if want_found { want_pos + 1 } else { want_pos });
+                    }
+                    cases += 1;
+                }
+            }
+        }
+    }
+    assert!(cases > 300, "only {} cases", cases);
+}
